@@ -114,11 +114,18 @@ def convexity(S, rep):
                     continue
                 centre = weights.pop(zero(dim), Poly())
                 nb = len(weights)
-                P = Poly.atom(p)
-                ok_nb = nb == 2 * dim and all((wt - P).is_zero() for wt in weights.values())
-                ok_centre = (centre - (Poly.const(1) - P.scale(nb))).is_zero()
+                P = Poly.sym(p[1])            # (0 on the path of a size/decision case where the step parameter is zero)
+                if P.is_zero():
+                    ok_nb = nb == 0
+                    ok_centre = (centre - Poly.const(1)).is_zero()
+                    nb = 2 * dim
+                else:
+                    ok_nb = nb == 2 * dim and all((wt - P).is_zero() for wt in weights.values())
+                    ok_centre = (centre - (Poly.const(1) - P.scale(nb))).is_zero()
                 # centre weight at the largest admissible p
                 cmin = as_poly(centre.subs({p: Poly.const(Fr(9, 10) / (2 * dim))})).const_value() if ok_centre else None
+                if ok_centre and P.is_zero():
+                    cmin = 1
                 ok = ok_nb and ok_centre and cmin is not None and cmin >= 0
                 rep.ob("C16.d", inst, ok,
                        "diffusion update is not the convex average (1 - %d p) f0 + p*sum(neighbours): centre %r, neighbours %r" % (2 * dim, centre, weights)
